@@ -21,6 +21,7 @@ worker() {
   kind=mutant; case "$P" in seeded_benign*) kind=benign-independent;; *benign*) kind=benign;; seeded*) kind=seeded;; esac
   echo "| $(echo $P | sed 's|selftest/||') | $kind | $fired | $nov |" > "$ROWS/$n.row"
   echo "$P: $fired / noverdict: $nov"
+  [ -n "$nov" ] && { echo "---- output of the run without a verdict ($P)"; echo "$res" | tail -30; echo "----"; }
 }
 export -f worker
 xargs -P "$JOBS" -L1 bash -c 'worker "$0" "$1"' < "$ROWS/list"
